@@ -51,9 +51,8 @@ def pawnOf (w : Bool) : Pc := if w then WPAWN else BPAWN
 /-- the piece standing on the from-square before the move, read off the position after the move -/
 def movedPc (w : Bool) (atT : Pc) (promo : Pc) : Pc := if promo != 0 then pawnOf w else atT
 
-/-- board part of `Position::unMakeMove` (`w` = the side that made the move) -/
-def unmakeBoard (qb : Board) (w : Bool) (m : Mv) (cap : Pc) (ep : Option Sq) : Board :=
-  let p := movedPc w qb[m.t] m.promo
+/-- board part of `Position::unMakeMove` (`w` = the side that made the move, `p` = the piece that moved) -/
+def unmakeBoardP (qb : Board) (w : Bool) (m : Mv) (cap : Pc) (ep : Option Sq) (p : Pc) : Board :=
   let b := setSq qb m.t.val cap
   let b := setSq b m.f.val p
   let b :=
@@ -61,6 +60,9 @@ def unmakeBoard (qb : Board) (w : Bool) (m : Mv) (cap : Pc) (ep : Option Sq) : B
     else if kind p == 1 && m.t.val + 2 == m.f.val then setSq (setSq b (m.f.val - 1) 0) (m.f.val - 4) (if w then WROOK else BROOK)
     else b
   if kind p == 6 && ep == some m.t then setSq b (if w then m.t.val - 8 else m.t.val + 8) (if w then BPAWN else WPAWN) else b
+
+def unmakeBoard (qb : Board) (w : Bool) (m : Mv) (cap : Pc) (ep : Option Sq) : Board :=
+  unmakeBoardP qb w m cap ep (movedPc w qb[m.t] m.promo)
 
 /-- `Position::unMakeMove` -/
 def unmake (Q : Pos) (m : Mv) (ui : Undo) : Pos :=
